@@ -30,14 +30,16 @@ import numpy as np
 from mc.harness import Broken, Tally
 
 LEVEL = "exploration"
-TECHNIQUE = "full Cartesian lattices (shape x dtype x axis subset x factor tuple x reducer x mode; input x output shapes; pad widths) on the real Dataset, float64 pixel-loop block sums and a DFT-matrix resampler as oracles, complete delta basis"
+TECHNIQUE = "full Cartesian lattices (shape x dtype x axis subset x factor tuple x reducer x mode; input x output shapes; pad widths) on the real Dataset, float64 pixel-loop block sums and a DFT-matrix resampler as oracles, complete delta basis; all ordered pairs/triples of colliding calls on a freshly re-imported module"
 CLAIM = (
     "For every point of the stated lattices the real Dataset.bin equals pixel-by-pixel float64 block sums (or means), drops only "
     "the trailing remainder, multiplies sampling by the factor and keeps total counts and every block-centre coordinate; "
     "Dataset.fourier_resample equals an O(n^2) DFT-matrix resampler written from the definition on seeded data and on the complete "
     "delta basis (so, by linearity, on every array of those shapes), preserves mean, physical centre and field of view, is the identity at "
     "equal shape and returns Nyquist-free input after up- then down-sampling; pad(output_shape) followed by crop of the floor/ceil widths "
-    "is the identity. Exploration is the right level: the property quantifies over configurations and inputs, not over histories."
+    "is the identity. Every ordered pair (thorough: triple) of calls from an alphabet built to collide on coarse keys (same shape and factor tuple / out_shape / widths "
+    "on different axes, orders, spellings, reducers, dtypes, forms, in-place vs copy) runs on a freshly re-imported module and the last call still satisfies its oracles: "
+    "a result does not depend on earlier calls. Exploration is the right level: the property quantifies over configurations and inputs, not over histories."
 )
 NOTE = (
     "Trusted: the pixel-loop block-sum oracle, the DFT resampling matrix (band = frequencies -(L//2) .. L-L//2-1 common to input and output, "
@@ -106,8 +108,14 @@ def meta(nd):
     return origin, sampling, units
 
 
+_DATASET_CLS = None  # set by the call-history part to the Dataset class of the freshly re-imported module
+
+
 def dataset(a):
-    from quantem.core.datastructures import Dataset
+    if _DATASET_CLS is not None:
+        Dataset = _DATASET_CLS
+    else:
+        from quantem.core.datastructures import Dataset
 
     origin, sampling, units = meta(a.ndim)
     return Dataset.from_array(a.copy(), origin=list(origin), sampling=list(sampling), units=list(units))
@@ -326,6 +334,17 @@ def bin_item(item, seed=0):
     nd = len(shape)
     cache = {}
     t = Tally()
+    with FreshModule() as fm:
+        fm.fresh()  # every item starts from a freshly imported module: what a point sees does not depend on worker scheduling
+        _bin_lattice(fm, t, a, flat, cache, shape, dtype, nd, spell, seed)
+    if (shape, dtype) in (((7,), "float64"), ((5, 7), "int64")):  # present in both tiers: the written-out samples are the same every run
+        st, pr, info = check_bin(a, flat, cache, tuple(range(nd)), (2,) * nd, "sum", "copy", "tuple")
+        t.sample({"op": "bin", "shape": list(shape), "dtype": dtype, "call": info["call"], "out_shape": info.get("out_shape"), "origin": info.get("origin"), "sampling": info.get("sampling")}, cap=1)
+    return t
+
+
+def _bin_lattice(fm, t, a, flat, cache, shape, dtype, nd, spell, seed):
+    earlier, memo = [], {}
     for axes in axis_subsets(nd):
         for fac in factor_tuples(shape, axes):
             combos = [("tuple", r, m) for r in REDUCERS for m in MODES]
@@ -338,7 +357,9 @@ def bin_item(item, seed=0):
                 if probs:
                     probs.sort(key=lambda p: BIN_ORDER.index(p[0]))
                     more = f" [also: {', '.join(r for r, _ in probs[1:])}]" if len(probs) > 1 else ""
-                    t.fail({"op": "bin", "relation": probs[0][0], "spelling": spelling}, case, f"{dtype}{shape}.{info['call']}: {probs[0][1]}{more}")
+                    lattice_failure(fm, t, seed, dict(case, tag=1), earlier, probs, {"op": "bin", "relation": probs[0][0], "spelling": spelling},
+                                    f"{dtype}{shape}.{info['call']}: {probs[0][1]}{more}", memo)
+                earlier.append(dict(case, tag=1))
                 out_shape = info.get("out_shape")
                 nontrivial = status == "ok" and out_shape is not None and tuple(out_shape) != shape
                 t.case(
@@ -349,10 +370,6 @@ def bin_item(item, seed=0):
                 t.extra["bin_" + status] += 1
                 if any(f > 1 and shape[ax] % f for ax, f in zip(axes, fac)):
                     t.extra["bin_points_with_dropped_remainder"] += 1
-    if (shape, dtype) in (((7,), "float64"), ((5, 7), "int64")):  # present in both tiers: the written-out samples are the same every run
-        st, pr, info = check_bin(a, flat, cache, tuple(range(nd)), (2,) * nd, "sum", "copy", "tuple")
-        t.sample({"op": "bin", "shape": list(shape), "dtype": dtype, "call": info["call"], "out_shape": info.get("out_shape"), "origin": info.get("origin"), "sampling": info.get("sampling")}, cap=1)
-    return t
 
 
 BIN_ORDER = ["raises", "returns_dataset", "shape_drops_only_remainder", "block_values", "counts_preserved", "sampling_times_factor", "block_centre_preserved", "copy_leaves_source"]
@@ -494,7 +511,7 @@ FR_ORDER = ["raises", "returns_dataset", "output_shape", "real_stays_real", "dft
             "centre_preserved", "extent_preserved", "copy_leaves_source", "scalar_factor_length", "delta_basis", "superposition", "up_then_down"]
 
 
-def record_fr(t, part, a, dtype, axes, outlens, form, spelling, mode, status, probs, info, extra_case=None):
+def record_fr(t, part, a, dtype, axes, outlens, form, spelling, mode, status, probs, info, extra_case=None, hist=None):
     shape = a.shape
     case = {"op": "resample", "part": part, "shape": list(shape), "dtype": dtype, "axes": list(axes), "out": list(outlens), "form": form, "spelling": spelling, "mode": mode}
     if extra_case:
@@ -502,7 +519,14 @@ def record_fr(t, part, a, dtype, axes, outlens, form, spelling, mode, status, pr
     if probs:
         probs.sort(key=lambda p: FR_ORDER.index(p[0]))
         more = f" [also: {', '.join(r for r, _ in probs[1:])}]" if len(probs) > 1 else ""
-        t.fail({"op": "resample", "relation": probs[0][0], "spelling": spelling, "form": form}, case, f"{dtype}{shape}.{info['call']}: {probs[0][1]}{more}")
+        cls_point, msg_point = {"op": "resample", "relation": probs[0][0], "spelling": spelling, "form": form}, f"{dtype}{shape}.{info['call']}: {probs[0][1]}{more}"
+        if hist is None:
+            t.fail(cls_point, case, msg_point)
+        else:
+            fm, seed, earlier, memo = hist
+            lattice_failure(fm, t, seed, dict(case, tag=2), earlier, probs, cls_point, msg_point, memo)
+    if hist is not None:
+        hist[2].append(dict(case, tag=2))
     stat(t, "fr", dtype, info)
     out_shape = info.get("out_shape")
     nontrivial = status == "ok" and out_shape is not None and tuple(out_shape) != shape
@@ -537,16 +561,19 @@ def fr_item(item, seed=0):
     a = make_array(shape, dtype, seed, tag=2)
     nd = len(shape)
     t = Tally()
-    for outlens in outs:
-        outlens = tuple(outlens)
-        ref = resample_oracle(a, axes, outlens)
-        for form in ("out_shape", "factors"):
-            for spelling in fr_spellings(nd, axes):
-                for mode in MODES:
-                    if form == "factors" and mode == "inplace":
-                        continue  # the form only decides the output length; in-place is covered with out_shape
-                    status, probs, info = check_resample(a, axes, outlens, form, spelling, mode, ref=ref)
-                    record_fr(t, part, a, dtype, axes, outlens, form, spelling, mode, status, probs, info)
+    with FreshModule() as fm:
+        fm.fresh()
+        hist = (fm, seed, [], {})
+        for outlens in outs:
+            outlens = tuple(outlens)
+            ref = resample_oracle(a, axes, outlens)
+            for form in ("out_shape", "factors"):
+                for spelling in fr_spellings(nd, axes):
+                    for mode in MODES:
+                        if form == "factors" and mode == "inplace":
+                            continue  # the form only decides the output length; in-place is covered with out_shape
+                        status, probs, info = check_resample(a, axes, outlens, form, spelling, mode, ref=ref)
+                        record_fr(t, part, a, dtype, axes, outlens, form, spelling, mode, status, probs, info, hist=hist)
     if part == "2d" and shape == (3, 4) and dtype == "float64":
         st, pr, info = check_resample(a, axes, (6, 3), "out_shape", "tuple", "copy")
         t.sample({"op": "resample", "shape": list(shape), "call": info["call"], "out_shape": info.get("out_shape"), "origin": info.get("origin"), "sampling": info.get("sampling"), "deviation_from_dft_matrix": info.get("dev_oracle")}, cap=1)
@@ -558,6 +585,8 @@ SCALAR_FACTORS = [0.5, 1.0, 1.5, 2.0, 1.0 / 3.0, 2.5]
 
 def scalar_factor_item(item, seed=0):
     """factors=<one float> applies to every selected axis; the output length must be the nearest integer (>= 1)."""
+    with FreshModule():  # start from fresh module-level state (original classes kept)
+        pass
     shape, dtype = tuple(item[0]), item[1]
     a = make_array(shape, dtype, seed, tag=3)
     nd = len(shape)
@@ -620,6 +649,8 @@ def scalar_factor_item(item, seed=0):
 
 def delta_item(item, seed=0):
     """The complete delta basis of one input shape against the oracle's columns, and superposition, for every output shape."""
+    with FreshModule():  # start from fresh module-level state (original classes kept)
+        pass
     shape, dtype, axes, outs = item
     shape, axes = tuple(shape), tuple(axes)
     nd = len(shape)
@@ -692,6 +723,8 @@ def nyquist_free(x):
 
 def updown_item(item, seed=0):
     """Up-sample to every shape in `ups`, down-sample back: Nyquist-free input must come back, calibration included."""
+    with FreshModule():  # start from fresh module-level state (original classes kept)
+        pass
     shape, dtype, ups = item
     shape = tuple(shape)
     nd = len(shape)
@@ -837,13 +870,23 @@ def pad_item(item, seed=0):
     a = make_array(shape, dtype, seed, tag=6)
     nd = len(shape)
     t = Tally()
+    with FreshModule() as fm:
+        fm.fresh()
+        _pad_lattice(fm, t, a, shape, dtype, nd, seed)
+    return t
+
+
+def _pad_lattice(fm, t, a, shape, dtype, nd, seed):
+    earlier, memo = [], {}
 
     def rec(pad_kind, widths, mode, style):
         status, probs, info = check_pad(a, pad_kind, widths, mode, style)
         case = {"op": "pad", "shape": list(shape), "dtype": dtype, "pad_kind": pad_kind, "widths": [list(w) for w in widths], "mode": mode, "crop_style": style}
         if probs:
             probs.sort(key=lambda p: PAD_ORDER.index(p[0]))
-            t.fail({"op": "pad_crop", "relation": probs[0][0], "pad_kind": pad_kind}, case, f"{dtype}{shape}.{info['call']} then crop[{style}]: {probs[0][1]}")
+            lattice_failure(fm, t, seed, dict(case, tag=6), earlier, probs, {"op": "pad_crop", "relation": probs[0][0], "pad_kind": pad_kind},
+                            f"{dtype}{shape}.{info['call']} then crop[{style}]: {probs[0][1]}", memo)
+        earlier.append(dict(case, tag=6))
         nontrivial = status == "ok" and any(b + c > 0 for b, c in widths)
         t.case(key=("pad", shape, dtype, pad_kind, widths, mode, style) if nontrivial else None, nontrivial=nontrivial, outcome=("pad", status, info.get("out_shape"), info.get("cropped_shape")))
         t.extra["pad_" + status] += 1
@@ -865,6 +908,230 @@ def pad_item(item, seed=0):
             rec("pad_width_int", tuple((w, w) for _ in range(nd)), "copy", "all")
         for b, c in itertools.product(range(3), repeat=2):
             rec("pad_width_pair", tuple((b, c) for _ in range(nd)), "copy", "all")
+    return t
+
+
+# ============================================================================= CALL HISTORIES
+# Shape H inside this lattice check: "a result must not depend on earlier calls". The lattices above execute every point
+# on whatever module state the worker happens to be in, so state that survives between calls (a memo keyed too coarsely, a
+# cached plan, a mutable default) shows up there only by accident of scheduling. Here the module
+# quantem.core.datastructures.dataset is re-imported (importlib.reload) before every history, the history's calls run on the
+# Dataset class of the fresh module, and the LAST call is judged by the same oracles as the lattice points. Every call is
+# first judged alone (history of length 1); a longer history is a failure of *this* relation only if its last call passes alone.
+# The alphabet is built to COLLIDE on coarse keys: same shape and same factor tuple / out_shape / widths on different axis
+# subsets, axis orders, negative spellings, reducers, dtypes, forms and in-place vs copying variants.
+# Reload safety (checked on HEAD): reload re-executes dataset.py in the same module dict, so the new module-level state is fresh
+# and the new Dataset class has an empty dimension registry (only __getitem__ uses it; bin / fourier_resample / pad / crop /
+# copy do not). After the histories the original class objects are bound back into the module, so the registry-bearing
+# Dataset is again what `from quantem.core.datastructures.dataset import Dataset` returns; Broken if that cannot be confirmed.
+HIST_SHAPES = [(4, 4), (3, 4), (4, 3, 4)]
+
+
+def history_alphabet(quick=True):
+    calls = []
+
+    def B(shape, axes, fac, reducer="sum", mode="copy", spelling="tuple", dtype="float64"):
+        calls.append({"op": "bin", "shape": list(shape), "dtype": dtype, "axes": list(axes), "factors": list(fac), "reducer": reducer, "mode": mode, "spelling": spelling})
+
+    def R(shape, axes, out, form="out_shape", spelling="tuple", mode="copy", dtype="float64"):
+        calls.append({"op": "resample", "part": "history", "shape": list(shape), "dtype": dtype, "axes": list(axes), "out": list(out), "form": form, "spelling": spelling, "mode": mode})
+
+    def P(shape, widths, pad_kind="pad_width", mode="copy", crop_style="axis_by_axis", dtype="float64"):
+        calls.append({"op": "pad", "shape": list(shape), "dtype": dtype, "pad_kind": pad_kind, "widths": [list(w) for w in widths], "mode": mode, "crop_style": crop_style})
+
+    for shape in [(4, 4), (3, 4)]:
+        B(shape, (0,), (2,))                       # same factor tuple (2,) ...
+        B(shape, (1,), (2,))                       # ... on the other axis
+        B(shape, (1,), (2,), spelling="negative")  # ... spelled -1
+        B(shape, (0,), (2,), spelling="int_axis")
+        B(shape, (0, 1), (2, 2))
+        B(shape, (0, 1), (2, 3))                   # factor tuple (2,3) on axes (0,1) ...
+        B(shape, (0, 1), (3, 2), spelling="permuted")  # ... and bin((2,3), axes=(1,0))
+        B(shape, (0, 1), (2, 1))
+        B(shape, (0, 1), (1, 2))
+        B(shape, (1,), (2,), reducer="mean")
+        B(shape, (0,), (2,), reducer="mean")
+        B(shape, (1,), (2,), mode="inplace")
+        B(shape, (0,), (2,), dtype="int16")
+        B(shape, (1,), (2,), dtype="complex64")
+        R(shape, (0,), (6,))                       # same out_shape (6,) on axis 0 / axis 1 / -1
+        R(shape, (1,), (6,))
+        R(shape, (1,), (6,), spelling="negative")
+        R(shape, (0,), (6,), form="factors")
+        R(shape, (0, 1), (5, 6))                   # out_shape (5,6) on axes (0,1) ...
+        R(shape, (0, 1), (6, 5), spelling="permuted")  # ... and out_shape (5,6) on axes (1,0)
+        R(shape, (0, 1), (5, 6), spelling="none", mode="inplace")
+        R(shape, (1,), (3,), dtype="complex64")
+        P(shape, ((1, 2), (0, 0)))                 # same widths on axis 0 ...
+        P(shape, ((0, 0), (1, 2)))                 # ... and on axis 1
+        P(shape, ((0, 0), (1, 2)), crop_style="axis_by_axis_negative")
+        P(shape, ((1, 2), (1, 2)), pad_kind="pad_width_pair", crop_style="all")
+        P(shape, ((1, 1), (0, 1)), pad_kind="output_shape", mode="inplace", crop_style="all")
+    s3 = (4, 3, 4)
+    B(s3, (0,), (2,))
+    B(s3, (2,), (2,))
+    B(s3, (2,), (2,), spelling="negative")
+    B(s3, (0, 1), (2, 2))
+    B(s3, (0, 2), (2, 2))
+    B(s3, (1, 2), (2, 2))
+    B(s3, (0, 2), (2, 2), reducer="mean", mode="inplace")
+    B(s3, (0, 1, 2), (2, 3, 2))
+    B(s3, (0, 1, 2), (2, 3, 2), spelling="permuted")
+    R(s3, (0,), (5,))
+    R(s3, (2,), (5,))
+    R(s3, (1,), (5,))
+    R(s3, (0, 2), (5, 5))
+    P(s3, ((1, 0), (0, 0), (0, 0)))
+    P(s3, ((0, 0), (0, 0), (1, 0)))
+    return calls
+
+
+def do_call(c, seed):
+    """Execute one alphabet call on a fresh Dataset and judge it. Returns (problems, info)."""
+    shape = tuple(c["shape"])
+    a = make_array(shape, c["dtype"], seed, tag=c.get("tag", 7))
+    if c["op"] == "bin":
+        st, probs, info = check_bin(a, wide(a).ravel().tolist(), {}, tuple(c["axes"]), tuple(c["factors"]), c["reducer"], c["mode"], c["spelling"])
+    elif c["op"] == "resample":
+        st, probs, info = check_resample(a, tuple(c["axes"]), tuple(c["out"]), c["form"], c["spelling"], c["mode"])
+    elif c["op"] == "pad":
+        st, probs, info = check_pad(a, c["pad_kind"], tuple(tuple(w) for w in c["widths"]), c["mode"], c["crop_style"])
+    else:
+        raise ValueError(c["op"])
+    return probs, info
+
+
+def call_text(c):
+    return f"{c['dtype']}{tuple(c['shape'])}." + {"bin": lambda: "bin", "resample": lambda: "fourier_resample", "pad": lambda: "pad+crop"}[c["op"]]() + "(" + ", ".join(
+        f"{k}={c[k]!r}" for k in ("axes", "factors", "reducer", "out", "form", "pad_kind", "widths", "crop_style", "spelling", "mode") if k in c) + ")"
+
+
+_DS_CODE = None  # compiled code of quantem.core.datastructures.dataset, cached per process after the first real reload
+
+
+def sift(fm, seed, desc, earlier, budget=64):
+    """A lattice point failed on the module state its item had reached (every item starts from a fresh module). Re-judge it on a
+    freshly imported module. Returns ("alone", None) when it fails there too (a failure of the point itself), else ("history", h)
+    with h the shortest history found: [one earlier call of the item, point], or all earlier calls of the item + point."""
+    fm.fresh()
+    if do_call(desc, seed)[0]:
+        return "alone", None
+    for c in reversed(earlier[-budget:]):
+        fm.fresh()
+        do_call(c, seed)
+        if do_call(desc, seed)[0]:
+            fm.fresh()
+            return "history", [c, desc]
+    fm.fresh()
+    return "history", list(earlier) + [desc]
+
+
+def lattice_failure(fm, t, seed, desc, earlier, probs, cls_point, msg_point, memo):
+    """Record a failing lattice point: as a failure of the point if it also fails alone on a fresh module, otherwise as a
+    dependence on earlier calls with the shortest history (isolated for the first two such points of an item)."""
+    if memo.get("n", 0) < 2:
+        kind, hist = sift(fm, seed, desc, earlier)
+    else:
+        fm.fresh()
+        kind, hist = ("alone", None) if do_call(desc, seed)[0] else ("history", memo["hist"])
+        fm.fresh()
+    if kind == "alone":
+        t.fail(cls_point, {k: v for k, v in desc.items() if k != "tag"}, msg_point)
+        return
+    memo["n"] = memo.get("n", 0) + 1
+    memo.setdefault("hist", hist)
+    t.extra["lattice_points_failing_only_after_earlier_calls"] += 1
+    t.fail({"op": desc["op"], "relation": "result_independent_of_earlier_calls", "broken": probs[0][0], "via": "lattice"},
+           {"op": "history", "history": hist},
+           (f"after {' ; '.join(call_text(c) for c in hist[:-1])} " if len(hist) <= 3 else f"after the {len(hist) - 1} earlier calls of its lattice item ")
+           + f"the call {call_text(hist[-1])} fails: {probs[0][1] if hist[-1] is desc else '(first isolated point of this item)'} (alone, on a freshly imported module, it passes)"
+           + ("" if hist[-1] is desc else f"; same dependence at {call_text(desc)}: {probs[0][1]}"))
+
+
+class FreshModule:
+    """Re-import of quantem.core.datastructures.dataset before every history; original classes bound back at exit."""
+
+    def __enter__(self):
+        import importlib
+        import sys
+
+        global _DATASET_CLS
+        self.importlib = importlib
+        self.mod = sys.modules.get("quantem.core.datastructures.dataset") or importlib.import_module("quantem.core.datastructures.dataset")
+        self.orig = {k: v for k, v in vars(self.mod).items() if isinstance(v, type) and getattr(v, "__module__", None) == self.mod.__name__}
+        self.registry = dict(getattr(self.orig.get("Dataset"), "_registry", {}))
+        return self
+
+    def _reexec(self):
+        """Fresh module state: the first time in a process through importlib.reload, afterwards by re-executing the module's
+        compiled code in the module dict — exactly what reload does, without re-reading and re-compiling the source (40 ms)."""
+        global _DS_CODE
+        if _DS_CODE is None:
+            self.importlib.reload(self.mod)
+            try:
+                _DS_CODE = self.mod.__spec__.loader.get_code(self.mod.__name__)
+            except Exception:
+                _DS_CODE = False
+        elif _DS_CODE is False:
+            self.importlib.reload(self.mod)
+        else:
+            exec(_DS_CODE, self.mod.__dict__)
+
+    def fresh(self):
+        global _DATASET_CLS
+        self._reexec()
+        _DATASET_CLS = self.mod.Dataset
+
+    def __exit__(self, *exc):
+        global _DATASET_CLS
+        _DATASET_CLS = None
+        self._reexec()  # leave fresh module-level state behind ...
+        for k, v in self.orig.items():  # ... and the original, registry-bearing classes
+            setattr(self.mod, k, v)
+        import quantem.core.datastructures as pkg
+        from quantem.core.datastructures.dataset import Dataset as now
+
+        if now is not self.orig.get("Dataset") or pkg.Dataset is not now or dict(getattr(now, "_registry", {})) != self.registry:
+            raise Broken("the Dataset class / dimension registry could not be restored after the module reloads")
+        return False
+
+
+def history_item(item, seed=0, depth=2, quick=True):
+    """All histories whose first call is alphabet[item]; the last call of each is judged."""
+    calls = history_alphabet(quick)
+    first = calls[item]
+    t = Tally()
+    with FreshModule() as fm:
+        # every call alone (only in the item that starts with it)
+        fm.fresh()
+        alone_probs, info = do_call(first, seed)
+        t.case(key=("hist", 1, item), nontrivial=False, outcome=("hist-alone", item, info.get("out_shape"), not alone_probs))
+        t.extra["history_single_calls"] += 1
+        if alone_probs:
+            t.fail({"op": first["op"], "relation": alone_probs[0][0], "spelling": first.get("spelling", first.get("pad_kind")), "via": "history-alone"},
+                   {"op": "history", "history": [first]}, f"alone, on a freshly imported module: {call_text(first)}: {alone_probs[0][1]}")
+        tails = [[j] for j in range(len(calls))]
+        if depth >= 3:
+            tails += [[m, j] for m in range(0, len(calls), 3) for j in range(len(calls))]
+        alone_ok = {}
+        for tail in tails:
+            last = calls[tail[-1]]
+            fm.fresh()
+            hist = [first] + [calls[j] for j in tail]
+            for c in hist[:-1]:
+                do_call(c, seed)
+            probs, info = do_call(last, seed)
+            t.extra["history_sequences"] += 1
+            nontrivial = any(h != last for h in hist[:-1])
+            t.case(key=("hist", item, tuple(tail)) if nontrivial else None, nontrivial=nontrivial, outcome=("hist", item, tuple(tail), not probs))
+            if probs and tail[-1] not in alone_ok:  # judged alone only when needed: a call that fails alone is reported by its own item
+                fm.fresh()
+                alone_ok[tail[-1]] = not do_call(last, seed)[0]
+            if probs and alone_ok[tail[-1]]:
+                probs.sort(key=lambda p: (BIN_ORDER + FR_ORDER + PAD_ORDER).index(p[0]))
+                t.fail({"op": last["op"], "relation": "result_independent_of_earlier_calls", "broken": probs[0][0]},
+                       {"op": "history", "history": hist},
+                       f"after {' ; '.join(call_text(c) for c in hist[:-1])} the call {call_text(last)} fails: {probs[0][1]} (alone, on a freshly imported module, it passes)")
     return t
 
 
@@ -968,6 +1235,8 @@ def run(ctx):
         "negative axis indices and permuted axis orders are spellings of the same axis subset and must give the same result (or be rejected with an exception, which would be reported as 'raises')",
         "origin/sampling alphabet: origin_k = 1 + 0.5k - 3(k mod 2), sampling_k = 0.5 + 0.25k (distinct per axis, exactly representable)",
         "integer data: |values| <= 1e9 so that float64 block sums are exact; int16 covers its whole range",
+        "module state: every lattice item and every call history starts from a freshly re-executed quantem.core.datastructures.dataset (importlib.reload semantics); "
+        "a lattice point that fails is re-judged alone on a fresh module and, if it passes there, reported as a dependence on earlier calls with the shortest history found",
     )
 
     a0 = make_array((4, 5), "complex64", ctx.seed, tag=9)
@@ -994,6 +1263,18 @@ def run(ctx):
     ctx.pmap(delta_item, sorted(deltas, key=lambda it: -int(np.prod(it[0])) * len(it[3])), chunk=1, label="delta-basis", seed=ctx.seed)
     ctx.pmap(updown_item, sorted(updowns, key=lambda it: -int(np.prod(it[0])) * len(it[2])), chunk=1, label="up-down", seed=ctx.seed)
     ctx.pmap(scalar_factor_item, scalars, chunk=2, label="scalar-factor", seed=ctx.seed)
+
+    depth = 2 if quick else 3
+    halpha = history_alphabet(quick)
+    ctx.say(f"call histories: alphabet of {len(halpha)} calls, depth {depth}, module re-imported before every history")
+    ctx.pmap(history_item, list(range(len(halpha))), chunk=1, label="call-histories", seed=ctx.seed, depth=depth, quick=quick)
+    import quantem.core.datastructures as _pkg
+    from quantem.core.datastructures.dataset import Dataset as _now
+
+    if _pkg.Dataset is not _now or len(getattr(_now, "_registry", {})) == 0:
+        raise Broken("Dataset class / registry inconsistent after the call-history part")
+    if ctx.tally.extra["history_sequences"] < len(halpha) ** 2:
+        raise Broken("call-history part did not enumerate every ordered pair")
 
     pitems = pad_items(quick)
     ctx.say(f"pad/crop: {len(pitems)} (shape, dtype) items")
@@ -1026,6 +1307,10 @@ def run(ctx):
                 "delta_basis": "complete basis of every 1-D/2-D input shape (x (1+2j) for complex dtypes), every output shape",
                 "up_then_down": "delta basis and one seeded array with the Nyquist rows removed; every up-shape with n..2n+1 per axis",
             },
+            "call_histories": {
+                "alphabet": [call_text(c) for c in halpha],
+                "histories": "every ordered pair of calls" + ("" if quick else " and every triple whose middle call is every third alphabet member") + "; quantem.core.datastructures.dataset re-imported before each; last call judged by the lattice oracles; every call also judged alone",
+            },
             "pad_crop": {
                 "shapes": "1-D 1..5, 2-D {1..4}^2, selected 3-D" + ("" if quick else " and 4-D"),
                 "output_shape": "0..4 extra pixels per axis, all combinations",
@@ -1040,6 +1325,8 @@ def run(ctx):
             "delta_items": len(deltas),
             "updown_items": len(updowns),
             "pad_items": len(pitems),
+            "history_alphabet": len(halpha),
+            "history_depth": depth,
         },
         tolerances={"float64_complex128_int": TOL64, "float32_complex64": TOL32, "metadata": TOL_META},
     )
@@ -1054,6 +1341,26 @@ def run(ctx):
 def replay(ctx, case):
     op = case["op"]
     seed = ctx.seed
+    if op == "history":
+        hist = case["history"]
+        with FreshModule() as fm:
+            fm.fresh()
+            alone, _ = do_call(hist[-1], seed)
+            fm.fresh()
+            for c in hist[:-1]:
+                do_call(c, seed)
+            probs, info = do_call(hist[-1], seed)
+        for i, c in enumerate(hist):
+            print(f"  call {i + 1}: {call_text(c)}")
+        print(f"  last call after the history: {'FAILS ' + str([p[0] for p in probs]) if probs else 'passes'}; alone on a freshly imported module: {'FAILS ' + str([p[0] for p in alone]) if alone else 'passes'}")
+        print(f"  observed: shape={info.get('out_shape')} origin={info.get('origin')} sampling={info.get('sampling')}; expected shape={info.get('expected_shape')} and the lattice oracles")
+        if probs:
+            last = hist[-1]
+            if len(hist) == 1 or alone:
+                ctx.fail({"op": last["op"], "relation": probs[0][0], "via": "history-alone"}, case, probs[0][1])
+            else:
+                ctx.fail({"op": last["op"], "relation": "result_independent_of_earlier_calls", "broken": probs[0][0]}, case, f"after {len(hist) - 1} earlier call(s): {probs[0][1]}")
+        return
     if op == "bin":
         shape = tuple(case["shape"])
         a = make_array(shape, case["dtype"], seed, tag=1)
